@@ -2,6 +2,7 @@ package props
 
 import (
 	"fmt"
+	"github.com/netflix/rend/handlers"
 	"strings"
 	"sync"
 	"sync/atomic"
@@ -207,6 +208,21 @@ func TestC17Concurrent(t *testing.T) {
 						atomic.AddInt64(&writers, 1)
 						execHandler(h, wire.Cmd{Kind: wire.Delete, Key: shared[x%4]}, 0)
 						atomic.AddInt64(&writers, -1)
+					case r < 9 && i%2 == 0:
+						// commands that read and re-store an existing entry (get-and-touch, touch,
+						// append, prepend) on the private key, next to everybody else's reads
+						atomic.AddInt64(&writers, 1)
+						switch x % 4 {
+						case 0:
+							execHandler(h, wire.Cmd{Kind: wire.Gat, Key: priv, Exptime: 1000}, 0)
+						case 1:
+							execHandler(h, wire.Cmd{Kind: wire.Touch, Key: priv, Exptime: 1000}, 0)
+						case 2:
+							execHandler(h, wire.Cmd{Kind: wire.Gat, Key: shared[x%4], Exptime: 1000}, 0)
+						default:
+							execHandler(h, wire.Cmd{Kind: wire.GetE, Keys: []string{priv, shared[x%4]}}, 0)
+						}
+						atomic.AddInt64(&writers, -1)
 					default: // private key: write then read back
 						v := mkValue(x, 30)
 						atomic.AddInt64(&writers, 1)
@@ -230,4 +246,40 @@ func TestC17Concurrent(t *testing.T) {
 			rec.Sample(true, map[string]interface{}{"goroutines": g, "ops_per_goroutine": 300, "missing_key_reads_overlapping_writes": overlap})
 		}
 	}
+}
+
+// TestC17FreshNew must run as the first user of the backend in its process:
+// the very first inmem.New calls happen concurrently (as the accept loops of
+// the main and the batch port make them), and every caller must get the one
+// shared instance -- what one stores, all others read.
+func TestC17FreshNew(t *testing.T) {
+	rec := evid.For("C17")
+	const n = 16
+	hs := make([]handlers.Handler, n)
+	start := make(chan struct{})
+	var wg sync.WaitGroup
+	for i := 0; i < n; i++ {
+		wg.Add(1)
+		go func(i int) {
+			defer wg.Done()
+			<-start
+			hs[i], _ = inmem.New()
+		}(i)
+	}
+	close(start)
+	wg.Wait()
+	for i := 0; i < n; i++ {
+		execHandler(hs[i], wire.Cmd{Kind: wire.Set, Key: fmt.Sprintf("fresh-%d", i), Value: []byte(fmt.Sprintf("stored through handle %d", i)), Flags: uint32(i)}, 0)
+	}
+	for i := 0; i < n; i++ {
+		for j := 0; j < n; j++ {
+			res, _ := execHandler(hs[i], wire.Cmd{Kind: wire.Get, Keys: []string{fmt.Sprintf("fresh-%d", j)}}, 0)
+			if res.Err != nil || res.Hits[0] == nil || string(res.Hits[0].Value) != fmt.Sprintf("stored through handle %d", j) {
+				p := rec.Violation("TestC17FreshNew", map[string]interface{}{"reader_handle": i, "writer_handle": j})
+				t.Fatalf("C17 fresh New: what was stored through the handle of concurrent first caller %d is not visible through the handle of caller %d (%+v): the backend is not one shared instance; replay %s", j, i, res, p)
+			}
+		}
+	}
+	rec.Case(true, fmt.Sprintf("freshnew|%d", evid.Seed()), "concurrent-first-New")
+	rec.Sample(true, map[string]interface{}{"concurrent_first_callers_of_New": n})
 }
